@@ -25,7 +25,8 @@ Transcription (snapshot ef0888e + the `fix:` commits listed in findings/C16.txt)
   (first `Truncate(now)+every`, then `time.Ticker` times rounded; the runtime's jitter is a parameter);
   cron is an arbitrary `next` function (the driver instantiates `*/k` second schedules, ending schedules given by
   their firing times, and `cronZoneNext`: named hours/minutes/seconds evaluated in a zone `off` ns east of UTC);
-  `cronLiveTicks` = what `cronTicker.Start` sends (ideal runtime), incl. the zero time of an ended schedule.
+  `cronLiveTicks` = what `cronTicker.Start` sends (ideal runtime); an ended schedule sends nothing (since the `fix:`
+  recorded in findings/C16.txt; `cronLiveTicksOld` = the loop before it, which sent the zero time without pause).
 * `queries` = `QueryNode.Queries(start, stop)`; the unbounded Go loop is run with fuel
   `stop - start + 1` ns (theorem `queries_fuel_irrelevant`: more fuel changes nothing).
 * `doQuery` = one live tick: mutate the node's own query, issue its text; `batchTime` = the time it stamps on a
@@ -345,17 +346,25 @@ def cronZoneNext (tod : List Int) (off : Int) (t : Int) : Option Int :=
 /-- Go's zero time (what `cronexpr.Next` answers when the schedule has ended) as Unix ns. -/
 def zeroTime : Int := -zeroOff
 
-/-- `cronTicker.Start`, the first `n` times it sends: `for { now := time.Now(); next := c.expr.Next(now);
-<-time.After(next.Sub(now)); c.ticker <- next }` with an ideal runtime (the clock read after a tick is the tick).
-`next` = `c.expr.Next` in the Location of `time.Now()`, i.e. the host's zone. When the schedule has ended `Next`
-is the zero time, `next.Sub(now)` is negative, `time.After` fires at once and the ZERO TIME is sent — again and
-again (`Next` of the zero time is the zero time). -/
+/-- `cronTicker.Start`: `for { now := time.Now(); next := c.expr.Next(now); if next.IsZero() { <-c.closing; return };
+select { case <-time.After(next.Sub(now)): c.ticker <- next … } }` with an ideal runtime (the tick is sent at `next`, the
+loop continues from there). `next` = `c.expr.Next` in the Location of `time.Now()`, i.e. the host's zone. When the
+schedule has ended `Next` is the zero time: the loop stops ticking (it waits to be closed). -/
 def cronLiveTicks (next : Int → Option Int) : Nat → Int → List Int
   | 0, _ => []
   | n+1, now =>
     match next now with
-    | none => List.replicate (n + 1) zeroTime
+    | none => []
     | some c => c :: cronLiveTicks next n c
+
+/-- The loop as it was before the repair (no test for the zero time): `next.Sub(now)` is negative, `time.After` fires
+at once and the ZERO TIME is sent — again and again (`Next` of the zero time is the zero time). -/
+def cronLiveTicksOld (next : Int → Option Int) : Nat → Int → List Int
+  | 0, _ => []
+  | n+1, now =>
+    match next now with
+    | none => List.replicate (n + 1) zeroTime
+    | some c => c :: cronLiveTicksOld next n c
 
 /-- The times `QueryNode.Queries` walks and the times `cronTicker.Start` sends come from the same `c.expr.Next`, but
 each evaluates it in the Location of ITS OWN argument: `start.Local()` there, `time.Now()` here — both the host's
